@@ -47,7 +47,7 @@ func runC15(c *core.Ctx) {
 	keyV = putCC.Args[0]
 	sKey := core.CallOf(searches[0]).Args[1]
 	c.Check(keyV == sKey, "C15/cache-key-complete", "ComputeConsensusGroup/same-key", puts[0].Pos(), "lookup and insert use the same key value", "the cache is read and written under different keys")
-	reach := core.BackwardReach(keyV)
+	reach := core.BackwardReachPure(keyV)
 	for i, pn := range []string{"randomness", "round", "shardID", "epoch"} {
 		p := fn.Params[i+1]
 		c.Check(reach[p], "C15/cache-key-complete", "ComputeConsensusGroup/key⊇"+pn, puts[0].Pos(),
